@@ -76,7 +76,7 @@ func VH_C04_verify_binds() {
 	h := NewVerifier()
 	verifrt.Assert(h.Verify(msg, sig, digest, w.Address()) == nil, "C04/verify/genuine-signature-accepted")
 	msg2 := verifrt.NondetBytes("message'", 0, 3)
-	sig2 := verifrt.NondetBytes("signature'", 0, 64)
+	sig2 := verifrt.NondetBytes("signature'", 0, 66)
 	hash2 := verifrt.NondetHash("hash'")
 	if h.Verify(msg2, sig2, hash2, w.Address()) == nil {
 		verifrt.Assert(string(msg2) == string(msg), "C04/verify/message-bound")
